@@ -80,3 +80,4 @@ pub mod c17;
 pub mod c18;
 pub mod c19;
 pub mod c06;
+pub mod c34;
